@@ -42,7 +42,7 @@ def fh(s):
     if s in ("nan", "-nan"): return float("nan")
     if s == "inf": return float("inf")
     if s == "-inf": return float("-inf")
-    return float.fromhex(s)
+    return float.fromhex(s) if "x" in s.lower() else float(s)
 
 def hx(x):
     return float(x).hex()
@@ -934,6 +934,7 @@ def main():
         ck.oblige("M == <nu,nu> (centred for sum-to-zero) and sorted rows for 8 formulations x 2..5 classes", not seen_fm)
 
     # ---- 3. step-by-step runs
+    step_reported = set()
     nsteps = 0; step_runs = 0; dis_steps = []; mon_steps = 0; branch = {"one": 0, "triangle": 0, "box": 0}; shrunk_states = 0
     if step_cfgs:
         lines = [[steps_line(c)] for c in step_cfgs]
@@ -968,6 +969,9 @@ def main():
             if bad:
                 mon_steps += 1
                 key, msg = bad[0]
+                skey = (key, c["type"] in SIMPLEX)
+                if skey in step_reported: continue
+                step_reported.add(skey)
                 # shorten: fewer steps while the same key fails
                 small = dict(c)
                 def fails(ns):
@@ -1004,7 +1008,9 @@ def main():
 
     # ---- 4. metamorphic groups on the real trainers
     stats = {}; gfail = 0; reported = set(); bykey = {}
+    skipped = 0
     for c in groups:
+        if R.hangs >= 12: skipped += 1; continue          # every further non-terminating run would cost its time limit
         try:
             bad = check_group(ck, R, c, stats)
         except (ValueError, IndexError, KeyError) as ex:
@@ -1058,7 +1064,7 @@ def main():
         v = sorted(stats.get(name, []), reverse=True)[:3]
         return [(round(a, 4), b) for a, b in v]
     ck.notes["worst_ratios(observed/allowed)"] = {k: top(k) for k in ("gap_ratio", "inv_ratio", "biasP_ratio", "offset_ratio", "bin2_ratio", "lin_ratio")}
-    ck.notes["group_failures_by_key"] = bykey
+    ck.notes["group_failures_by_key"] = bykey; ck.notes["groups_skipped_after_12_non_terminating_runs"] = skipped
     ck.notes["step_branches"] = branch; ck.notes["step_states_with_shrunk_variables"] = shrunk_states
     ck.notes["max_iterations_of_a_trainer_run"] = stats.get("max_iters", 0); ck.notes["shrinking_runs_over_1000_iterations"] = stats.get("shrink_long_runs", 0)
     ck.notes["streams"] = {"free": nfree, "formulation_matrices": nnum, "step_runs": step_runs, "steps": nsteps, "groups": len(groups), "trainer_runs": stats.get("runs", 0)}
